@@ -13,5 +13,7 @@ func TestVerifSim(t *testing.T) {
 		"C03": verifEngineA,
 		"C04": verifEngineA,
 		"C05": verifEngineC05,
+		"C08": verifEngineC08,
+		"C09": verifEngineC09,
 	})
 }
